@@ -34,6 +34,11 @@ func main() {
 				job.Timeout, _ = strconv.Atoi(a[10:])
 				continue
 			}
+			if strings.HasPrefix(a, "--intbound=") {
+				v, _ := strconv.ParseInt(a[11:], 10, 64)
+				job.IntBound = v
+				continue
+			}
 			if a == "--combine" {
 				job.Combine = true
 				continue
